@@ -33,6 +33,9 @@ impl WorldB {
     }
 
     pub fn gen(&mut self, rng: &mut Rng) -> Op {
+        if let Some(op) = self.warm_queue.pop_front() {
+            return op;
+        }
         let ns = self.slots.len() as u64;
         let slot = rng.below(ns) as usize;
         let dir = rng.below(2) as usize;
@@ -95,6 +98,9 @@ impl WorldB {
                 w[7] = 3;
             }
             "session" => {
+                if rng.chance(1, 40) {
+                    return Op::new(K_GENBURST, slot as u64, rng.below(2), rng.below(200), 0);
+                }
                 w[7] = 25;
                 w[16] *= 2;
                 w[13] *= 2;
